@@ -11,16 +11,37 @@ Require Import PV.Lib.Bytes PV.Model.Wire PV.Model.KeyPackets PV.Model.Fingerpri
 Require Import PV.Proofs.KeyPackets_lemmas PV.Proofs.Fingerprint_lemmas PV.Proofs.PubExport_lemmas.
 Open Scope Z_scope.
 
-(* the public packet body is the first 6 + publen octets of the secret packet body, nothing after them is copied *)
+(* a key packet of a supported algorithm has a public half (Some: pubkey() does not refuse), and its body is the first
+   6 + publen octets of the secret packet body, nothing after them is copied *)
 Theorem C07_pub_body_is_prefix : forall k, wf_pub k ->
-  pub_packet_body k = firstn (Z.to_nat (6 + publen k)) (sec_packet_body k).
+  pub_packet_body k = Some (firstn (Z.to_nat (6 + publen k)) (sec_packet_body k)).
 Proof. exact pub_body_is_prefix. Qed.
 Print Assumptions C07_pub_body_is_prefix.
 
+(* PGPKey.pubkey is PARTIAL since repair 3c1c8c6 (None = NotImplementedError).  It refuses a private key exactly when one
+   of its key packets holds opaque material (an algorithm id without a material class): where the public part of such
+   material ends is unknown, so NO octet of it is exported - the right outcome for "the public export carries no secret" *)
+Theorem C07_pubkey_refuses_iff : forall t, all_private t ->
+  (pubkey_of t = None <-> exists k, In k (keys_of t) /\ is_opaque (k_mat k) = true).
+Proof. exact pubkey_of_none_iff. Qed.
+Print Assumptions C07_pubkey_refuses_iff.
+(* every twin that IS produced - no premise on the key material - holds public halves only: each key packet is the
+   public half of the private key's packet and has no secret part; and none of the private key's packets was opaque *)
+Theorem C07_twin_public_halves : forall t p, all_private t -> pubkey_of t = Some p ->
+  keys_of p = map pub_half (keys_of t) /\
+  Forall (fun k => is_private k = false) (keys_of p) /\
+  Forall (fun k => is_opaque (k_mat k) = false) (keys_of t).
+Proof. intros t p H E. destruct (pubkey_of_some t p H E) as [_ R]. exact R. Qed.
+Print Assumptions C07_twin_public_halves.
+Theorem C07_twin_fingerprints : forall sha1 t p, all_private t -> pubkey_of t = Some p -> Forall real_publen (keys_of t) ->
+  map (fingerprint sha1) (keys_of p) = map (fingerprint sha1) (keys_of t).
+Proof. exact twin_fingerprints. Qed.
+Print Assumptions C07_twin_fingerprints.
+
 (* non-interference: secret integers, S2K block, ciphertext, checksum, lock state, secret-packet header format
-   do not influence a single octet of the public export *)
+   do not influence a single octet of the public export - nor whether there is one (pub_export: None = refused) *)
 Theorem C07_pub_export_noninterference : forall t t', all_private t -> all_private t' -> same_public t t' ->
-  export (pubkey_of t) = export (pubkey_of t').
+  pub_export t = pub_export t'.
 Proof. exact pub_export_noninterference. Qed.
 Print Assumptions C07_pub_export_noninterference.
 (* ... the twins are equal as objects, so everything later computed from them is equal too *)
@@ -28,40 +49,55 @@ Theorem C07_pubkey_of_same : forall t t', all_private t -> all_private t' -> sam
 Proof. exact pubkey_of_same. Qed.
 Print Assumptions C07_pubkey_of_same.
 
-(* the export exists and an independent packet splitter reads it back as exactly the twin's packets *)
+(* for keys of supported algorithms: the twin exists, its export exists, and an independent packet splitter reads it
+   back as exactly the twin's packets *)
 Theorem C07_pub_export_parse : forall t, wf_tkey t -> all_private t ->
-  exists bs, export (pubkey_of t) = Some bs /\
-    forall fuel, (length (export_pkts (pubkey_of t)) < fuel)%nat ->
-      parse_packets fuel bs = Some (map view (export_pkts (pubkey_of t))).
+  exists p bs, pubkey_of t = Some p /\ export p = Some bs /\
+    forall fuel, (length (export_pkts p) < fuel)%nat ->
+      parse_packets fuel bs = Some (map view (export_pkts p)).
 Proof. exact pub_export_parse. Qed.
 Print Assumptions C07_pub_export_parse.
 
 (* fuel = number of octets + 1 (what the driver passes) always suffices: OutOfFuel is excluded, not hidden *)
 Theorem C07_pub_export_parse_fuel : forall t, wf_tkey t -> all_private t ->
-  exists bs, export (pubkey_of t) = Some bs /\
-    parse_packets (S (length bs)) bs = Some (map view (export_pkts (pubkey_of t))).
+  exists p bs, pubkey_of t = Some p /\ export p = Some bs /\
+    parse_packets (S (length bs)) bs = Some (map view (export_pkts p)).
 Proof. exact pub_export_parse_fuel. Qed.
 Print Assumptions C07_pub_export_parse_fuel.
 
 (* every packet of it is a public-key (6), public-subkey (14), user-id (13), user-attribute (17) or signature (2) packet *)
 Theorem C07_pub_export_tags : forall t, wf_tkey t -> all_private t ->
-  Forall (fun p => In (fst p) [6; 14; 13; 17; 2]) (map view (export_pkts (pubkey_of t))).
+  exists p, pubkey_of t = Some p /\ Forall (fun x => In (fst x) [6; 14; 13; 17; 2]) (map view (export_pkts p)).
 Proof. exact pub_export_tags. Qed.
 Print Assumptions C07_pub_export_tags.
 Theorem C07_pub_export_no_secret_tag : forall t, wf_tkey t -> all_private t ->
-  forall x, In x (map view (export_pkts (pubkey_of t))) -> fst x <> 5 /\ fst x <> 7.
+  exists p, pubkey_of t = Some p /\ forall x, In x (map view (export_pkts p)) -> fst x <> 5 /\ fst x <> 7.
 Proof. exact pub_export_no_secret_tag. Qed.
 Print Assumptions C07_pub_export_no_secret_tag.
 
 (* same fingerprints (RFC hash of the exported key packets = what the private key reports), identities, signatures *)
 Theorem C07_pub_same_ids : forall sha1 t, wf_tkey t -> all_private t ->
   Forall (fun k => 6 + publen k < 65536) (keys_of t) ->
-  map (fun k => rfc_fingerprint sha1 (key_body k)) (keys_of (pubkey_of t)) = map (fingerprint sha1) (keys_of t) /\
-  map (fingerprint sha1) (keys_of (pubkey_of t)) = map (fingerprint sha1) (keys_of t) /\
-  t_uids (pubkey_of t) = t_uids t /\ t_sigs (pubkey_of t) = t_sigs t /\
-  map sb_sigs (t_subs (pubkey_of t)) = map sb_sigs (t_subs t).
+  exists p, pubkey_of t = Some p /\
+  map (fun k => rfc_fingerprint sha1 (key_body k)) (keys_of p) = map (fingerprint sha1) (keys_of t) /\
+  map (fingerprint sha1) (keys_of p) = map (fingerprint sha1) (keys_of t) /\
+  t_uids p = t_uids t /\ t_sigs p = t_sigs t /\
+  map sb_sigs (t_subs p) = map sb_sigs (t_subs t).
 Proof. exact pub_same_ids. Qed.
 Print Assumptions C07_pub_same_ids.
+
+(* the getter BEFORE repair 3c1c8c6 (pubkey_of_old: total, opaque material emptied) is refuted: the twin of a private
+   key with opaque material had another fingerprint (identity in place of SHA-1); the repaired getter refuses that key;
+   on keys of supported algorithms the two agree *)
+Theorem C07_pubkey_of_old_refuted :
+  all_private opaque_tkey /\
+  map (fingerprint (fun x => x)) (keys_of (pubkey_of_old opaque_tkey)) <> map (fingerprint (fun x => x)) (keys_of opaque_tkey) /\
+  pubkey_of opaque_tkey = None.
+Proof. exact pubkey_of_old_refuted. Qed.
+Print Assumptions C07_pubkey_of_old_refuted.
+Theorem C07_pubkey_of_old_same_supported : forall t, wf_tkey t -> pubkey_of t = Some (pubkey_of_old t).
+Proof. exact pubkey_of_old_same. Qed.
+Print Assumptions C07_pubkey_of_old_same_supported.
 
 (* premises are inhabited: a private RSA key with a locked ECDH subkey, one user id with a local (non-exportable)
    and an exportable certification, an old-format direct signature *)
@@ -105,12 +141,23 @@ Proof.
 Qed.
 (* ... and on it the export of the twin computes to public packets only, the local certification left out *)
 Example C07_example_export :
-  match export (pubkey_of ex_key) with
-  | Some bs => parse_packets 20 bs = Some (map view (export_pkts (pubkey_of ex_key))) /\
-               map fst (map view (export_pkts (pubkey_of ex_key))) = [6; 2; 13; 2; 14; 2]
+  match pubkey_of ex_key with
+  | Some p =>
+    match export p with
+    | Some bs => parse_packets 20 bs = Some (map view (export_pkts p)) /\
+                 map fst (map view (export_pkts p)) = [6; 2; 13; 2; 14; 2]
+    | None => False
+    end
   | None => False
   end.
 Proof. vm_compute. split; reflexivity. Qed.
+(* the same key with an opaque private subkey attached has no twin at all *)
+Example C07_example_refusal :
+  pubkey_of {| t_key := t_key ex_key; t_sigs := t_sigs ex_key; t_uids := t_uids ex_key;
+               t_subs := t_subs ex_key ++ [{| sb_key := {| km_fmt := 1; km_llen := 1;
+                 km_key := opaque_sec true 1000 21 [0; 9; 1; 255] {| s_usage := 0; s_s2k := []; s_enc := []; s_priv := []; s_chk := [] |} |};
+                 sb_sigs := [] |}] |} = None.
+Proof. reflexivity. Qed.
 
 (* Objects that hold only public material fail the precondition of every private operation
    (sign, certify, revoke, revoker, bind, decrypt), whatever else is true of them *)
